@@ -514,8 +514,11 @@ def check_case(res, case, world="?"):
         o1, changed1, after1 = export(case, pre_seed=101)
         res.trans()
         zero_codon = n_codons_min(exp) == 0
+        # a refusal is accepted only for a CDS that has no in-frame base to speak of: no complete codon AND nothing dangling
+        # behind the start offset (a CDS with 1-2 in-frame bases is 5'- and 3'-partial and is listed like any other)
+        degenerate = any(f["cls"] == "CDS" and f["n_codons"] == 0 and f["ends_in_frame"] for sec in exp for f in sec)
         if o1[0] == "exc":
-            if zero_codon:
+            if zero_codon and degenerate and lib.is_documented_exc(o1[2]):
                 res.note("export", "zero-codon-cds-refused:" + o1[1])
                 return
             res.deviation("export", case, o1[1] + ": " + str(o1[2])[:200], "a feature table", sig="export-raises-" + o1[1])
